@@ -71,6 +71,8 @@ def run_property(P, tier, seed, replay=None):
     # 2. correspondence streams
     all_obs = []
     broken_streams = []
+    skipped_streams = []
+    green_streams = set()
     for st in P["streams"]:
         n = st["n_quick"] if tier == "quick" else st["n_thorough"]
         only = None
@@ -84,6 +86,12 @@ def run_property(P, tier, seed, replay=None):
         if rc != 0 or not obs:
             rep.notes.append("stream %s: driver failed rc=%s\n%s" % (st["name"], rc, out[-3000:]))
             rep.obligation("stream:" + st["name"], False)
+            pruned = vf.stream_pruned(pid, st["test"]) if rc != 0 else None
+            if pruned and st.get("supplementary") and not replay:
+                # a white-box unit stream whose subject was REMOVED from the package (not renamed: harness/tools/rebind found no
+                # counterpart): decided after the streams it supplements have run (docs/notes/REBIND.md)
+                skipped_streams.append((st, pruned))
+                continue
             broken_streams.append((st, "driver does not build or run against the current tree", []))
             continue
         rows, shards, shards_ok, elog = evaluate(pid, st, obs) if proofs_ok or True else ({}, 0, 0, "")
@@ -96,6 +104,8 @@ def run_property(P, tier, seed, replay=None):
         before = len(rep.violations)
         cfpo, nviol = vf.classify_stream(rep, obs, rows, fmap, st["name"])
         rep.obligation("stream:" + st["name"], nviol == 0 and not cfpo)
+        if nviol == 0 and not cfpo:
+            green_streams.add(st["name"])
         if cfpo:
             broken_streams.append((st, "implementation differs from the model on %d cases" % len(cfpo), cfpo))
         for o in obs:
@@ -104,6 +114,15 @@ def run_property(P, tier, seed, replay=None):
         if replay:
             for pos, o in enumerate(obs):
                 print("REPLAY case=%s obs=%s verdict(corr,prop,guards)=%s" % (o["i"], json.dumps(o["obs"]), rows.get(pos, (True, True, []))))
+
+    for st, pruned in skipped_streams:
+        if all(n in green_streams for n in st["supplementary"]):
+            line = "stream %s skipped: its subject no longer exists in the package (%s); the behaviour it checks is exercised through stream(s) %s, which ran green" % (
+                st["name"], "; ".join(pruned.get("needs") or []), ", ".join(st["supplementary"]))
+            rep.notes.append(line)
+            print("NOTE: " + line)
+        else:
+            broken_streams.append((st, "driver does not build or run against the current tree", []))
 
     # 3. correspondence broken without a failing input so far: search, then report
     for st, why, cfpo in broken_streams:
